@@ -1,12 +1,12 @@
 package main
 
 import (
-	"strings"
 	"fmt"
-	"os"
 	"go/token"
 	"go/types"
+	"os"
 	"sort"
+	"strings"
 
 	"golang.org/x/tools/go/ssa"
 )
